@@ -276,6 +276,13 @@ fn run_inner(c: &Case) -> Result<Outcome, Failure> {
 			}
 		}
 	}
+	// a stop() is never lost: two processed callbacks later the sound is Stopped, whatever it was
+	// doing (playing, paused through its handle, waiting for its start time)
+	if let End::StopAt(k) = c.end {
+		if c.callbacks >= k + 2 && c.place != Place::PausedSubTrack {
+			ensure!(stopped_at.is_some(), "stop-reaches-stopped", "stop() was called before callback {k}; after callback {} the sound still reports {:?}; case {c:?}", c.callbacks - 1, handle.state());
+		}
+	}
 	ensure!(silent_since_stop, "silent-after-stopped", "audio was emitted after the sound reported Stopped; case {c:?}");
 
 	// (3) ... and the first error reaches the handle
@@ -492,7 +499,7 @@ impl Property for C10 {
 		"fault_enumeration"
 	}
 	fn rule(&self) -> &'static str {
-		"each case plays one streaming sound over a scripted decoder (index-coded frames, packet sizes 1..1152, seek granularity 1..64) through the real manager with a real decoding thread whose steps are scheduled through hook H2, under a fault plan (k-th decode() or seek() call fails once or forever), a scenario (main track, sub-track, sub-track paused beforehand; the sound itself playing, paused through its handle before its first callback, or waiting for a start time ten seconds away; natural end, stop() before callback j, refused by a full track, track handle dropped, manager dropped, left playing) and a decoder pace (ahead, n steps per callback, stalled after m steps). Oracles: the decoder object is released (its Drop is observed) within 4 s of the sound finishing / being stopped / failing / being refused or discarded; the decode loop runs at most 2w+50 times in an idle window of w ms; after a decoder error the sound is Stopped, unloaded one callback later, silent from then on, and pop_error() yields the first error; without faults the audible frames are a strictly increasing subsequence of the source with at most one frame skipped per gap of silence. Enumeration: every stream length 1..24 x packet size 1..4 x every fault position (decode call k, first / later seek, once / forever) on the main track and a sub-track, with the sound playing, paused or waiting for its start time. Non-trivial = a fault after at least one good packet, a discard scenario, or a starving decoder; distinct = distinct decoded choices."
+		"each case plays one streaming sound over a scripted decoder (index-coded frames, packet sizes 1..1152, seek granularity 1..64) through the real manager with a real decoding thread whose steps are scheduled through hook H2, under a fault plan (k-th decode() or seek() call fails once or forever), a scenario (main track, sub-track, sub-track paused beforehand; the sound itself playing, paused through its handle before its first callback, or waiting for a start time ten seconds away; natural end, stop() before callback j, refused by a full track, track handle dropped, manager dropped, left playing) and a decoder pace (ahead, n steps per callback, stalled after m steps). Oracles: a stop() with an instant tween reaches Stopped within two processed callbacks; the decoder object is released (its Drop is observed) within 4 s of the sound finishing / being stopped / failing / being refused or discarded; the decode loop runs at most 2w+50 times in an idle window of w ms; after a decoder error the sound is Stopped, unloaded one callback later, silent from then on, and pop_error() yields the first error; without faults the audible frames are a strictly increasing subsequence of the source with at most one frame skipped per gap of silence. Enumeration: every stream length 1..24 x packet size 1..4 x every fault position (decode call k, first / later seek, once / forever) on the main track and a sub-track, with the sound playing, paused or waiting for its start time. Non-trivial = a fault after at least one good packet, a discard scenario, or a starving decoder; distinct = distinct decoded choices."
 	}
 	fn assumptions(&self) -> Vec<String> {
 		vec![
